@@ -405,3 +405,8 @@ def run(m, rep, tier):
             n12.violation(_nm, '; '.join(sorted(set(bad))[:2]), floc(m, f), {})
         else:
             n12.ok(_nm, 'every non-NULL result is the element of the unlinked node', floc(m, f))
+
+    # ---- N13 ---------------------------------------------------------------------------------------------
+    from .util import check_no_mutable_globals
+    n13 = rep.rule('N13', 'slist.c defines no writable static object', floor=1)
+    check_no_mutable_globals(m, n13, ('slist',))
